@@ -200,7 +200,7 @@ class IkeSa(object):
                 return intersection
         raise NoProposalChosen('Could not find a suitable matching Proposal')
 
-    def _get_ipsec_configuration(self, payload_tsi, payload_tsr):
+    def _get_ipsec_configuration(self, payload_tsi, payload_tsr, narrow=True):
         """ Find matching IPsec configuration.
             It iterates over the received TS in reversed order and returns the
             first configuration that is larger or smaller than the proposed
@@ -213,7 +213,7 @@ class IkeSa(object):
                     if tsi.is_subset(ipsec_conf.peer_ts) and tsr.is_subset(ipsec_conf.my_ts):
                         return ipsec_conf, tsr, tsi
                     # look for a smaller policy
-                    elif ipsec_conf.peer_ts.is_subset(tsi) and ipsec_conf.my_ts.is_subset(tsr):
+                    elif narrow and ipsec_conf.peer_ts.is_subset(tsi) and ipsec_conf.my_ts.is_subset(tsr):
                         return ipsec_conf, ipsec_conf.my_ts, ipsec_conf.peer_ts
         raise TsUnacceptable('TS could not be matched with any IPsec configuration')
 
@@ -824,8 +824,10 @@ class IkeSa(object):
                 response_payloads.append(response_payload_nonce)
 
             # Find matching IPsec configuration and narrow TS (reverse order as we are responders)
+            # (a rekeyed CHILD_SA keeps the selectors of the old one: they are not narrowed to a smaller policy again)
             ipsec_conf, chosen_tsr, chosen_tsi = self._get_ipsec_configuration(request_payload_tsi,
-                                                                               request_payload_tsr)
+                                                                               request_payload_tsr,
+                                                                               narrow=not rekey_notify)
 
             # check which mode peer wants and compare to ours
             requested_mode = xfrm.Mode.TUNNEL
